@@ -367,8 +367,12 @@ class Ctx:
         self.viol.append({"property": "C19", "clause": clause, "key": key, "detail": detail})
 
     def path(self, stem):
+        # stages of the real flow use fixed file names, so a later run of a stage overwrites the earlier document:
+        # every third request gets a fresh name, the others reuse one of two names per stem
         self.nfile += 1
-        return "%s_%d.yaml" % (stem, self.nfile)
+        if self.nfile % 3 == 0:
+            return "%s_%d.yaml" % (stem, self.nfile)
+        return "%s_slot%d.yaml" % (stem, self.nfile % 2)
 
 
 def _yaml_text(tree):
@@ -990,6 +994,8 @@ def _op_rect_solution(ctx, o):
             tree_mods[name] = {"fixed": True, "rectangles": [rect]}
         elif k == "terminal":
             tree_mods[name] = {"terminal": True, "center": [x0, cy]}
+            if r.chance(0.4):
+                tree_mods[name]["fixed"] = True   # a pinned terminal
         elif k == "soft_rect":
             tree_mods[name] = {"area": W * H / 64, "rectangles": [rect]}
         else:
@@ -1055,7 +1061,7 @@ def _op_rect_solution(ctx, o):
         problem = "modules"
     else:
         for a, b in zip(src["modules"], got["modules"]):
-            if a["kind"] != b["kind"]:
+            if a["kind"] != b["kind"] or a.get("fixed_terminal") != b.get("fixed_terminal"):
                 problem = "kind"
             elif canon(a["rects"]) != canon(b["rects"]):
                 problem = "shapes"
